@@ -8,7 +8,7 @@ from sim.kernel import H
 from workload import scenario
 from workload.scenario import CONT_FAMILIES, FAMILIES, INT_FAMILIES, MODES
 
-from . import engine_g, oracles_g
+from . import engine_g, invalid_calls, oracles_g
 
 POOLED = ["thread", "process"]
 
@@ -23,12 +23,12 @@ G_PROPS = {
     "C06": dict(oracles=["c06"], families=FAMILIES, modes=MODES, n_quick=7000, n_thorough=70000,
                 opts={"cycles_bias_one": True}),
     "C10": dict(oracles=["c10"], families=FAMILIES, modes=MODES, n_quick=6000, n_thorough=60000,
-                opts={"pop_scales": (1, 1.5, 2, 3)}),
+                opts={"pop_scales": (1, 1.5, 2, 3), "any_pop_p": 0.5}),
     "C15": dict(oracles=["c15", "c15_trend"], families=FAMILIES, modes=MODES, n_quick=6000, n_thorough=60000, opts={}),
     "C17": dict(oracles=["c17"], families=FAMILIES, modes=MODES, n_quick=6000, n_thorough=60000,
                 opts={"only_classified": "elitist.json", "stop_opts": True}),
     "C11": dict(oracles=["c11_pool", "c01", "c02", "c03", "c10"], families=CONT_FAMILIES, modes=POOLED,
-                n_quick=6000, n_thorough=60000, opts={"p_no_faults": 0.25, "pool_heavy_bias": True}),
+                n_quick=6000, n_thorough=60000, opts={"p_no_faults": 0.25, "pool_heavy_bias": True, "p_line": 0.15}),
 }
 
 POOL_IN_CYCLE = ["KrillHerdOptimization", "WindDrivenOptimization", "WildebeestHerdOptimization",
@@ -60,6 +60,14 @@ def plan(pid, tier, seed, n_override=None):
             if spec["opts"].get("pool_heavy_bias") and r.random() < 0.5:
                 cell = (r.choice(POOL_IN_CYCLE), cell[1], cell[2])
         jobs.append({"i": i, "seed": H(seed, pid, tier, i), "cell": cell, "pid": pid, "tier": tier})
+    if pid == "C06":
+        # second clause of C06: invalid calls are rejected up front
+        k = max(len(invalid_calls.CASES), n // 12)
+        names = scenario.optimizer_names()
+        for t in range(k):
+            i = n + t
+            jobs.append({"i": i, "seed": H(seed, pid, tier, "invalid", t), "cell": (names[r.randrange(len(names))], "invalid", "-"),
+                         "pid": pid, "tier": tier, "kind": "invalid"})
     return jobs
 
 
@@ -95,6 +103,8 @@ def apply_oracles(pid, desc, rec, seed):
 
 
 def run_job(job):
+    if job.get("kind") == "invalid":
+        return invalid_calls.run_job(job)
     t0 = time.time()
     desc = make_desc(job)
     rec = engine_g.run_scenario(desc)
